@@ -44,16 +44,6 @@ pub fn verif_flatten_options(a: [Option<CompressionEncoding>; 3]) -> (r: Vec<Com
 pub open spec fn is_ascii(s: Seq<char>) -> bool { forall|i: int| 0 <= i < s.len() ==> (#[trigger] s[i] as u32) < 128 }
 #[verifier::external_body]
 pub fn verif_ascii_bytes(s: &str) -> (r: &[u8]) ensures is_ascii(s@) ==> r@ == ascii_bytes(s@) { unimplemented!() }
-impl BytesMut {
-    // A-bytes-26: BytesMut::new is empty; put_u8 / put_slice append
-    #[verifier::external_body]
-    pub fn new() -> (r: BytesMut) ensures r@ == Seq::<u8>::empty(), r.reserve_bound@ < 0 { unimplemented!() }
-    #[verifier::external_body]
-    pub fn put_u8(&mut self, v: u8) ensures final(self)@ == old(self)@.push(v), final(self).reserve_bound == old(self).reserve_bound { unimplemented!() }
-    #[verifier::external_body]
-    pub fn put_slice(&mut self, s: &[u8]) ensures final(self)@ == old(self)@ + s@, final(self).reserve_bound == old(self).reserve_bound { unimplemented!() }
-}
-impl HasBytes for BytesMut { open spec fn bytes_view(&self) -> Seq<u8> { self@ } }
 #[verifier::external_body]
 pub fn verif_bytes_lit(s: &'static str) -> (r: &'static [u8]) ensures r@ == ascii_bytes(s@) { unimplemented!() }
 pub open spec fn names_of(s: Seq<CompressionEncoding>) -> Seq<u8> decreases s.len() {
